@@ -146,7 +146,9 @@ enum Guard<'a> {
 /// See [`Handle::raw_alias`]. The temporary clone that is taken apart here is dropped again before returning.
 fn raw_of<T: ?Sized>(r: Reference<T>) -> Reference<T> {
     use rrtk::reference::ReferenceUnsafe;
-    match r.into_inner() {
+    // (through `From<Reference<T>> for ReferenceUnsafe<T>`; `to_dyn!` takes the other route, `into_inner`)
+    let unwrapped: ReferenceUnsafe<T> = r.into();
+    match unwrapped {
         ReferenceUnsafe::Ptr(p) => unsafe { Reference::from_ptr(p) },
         #[cfg(feature = "alloc")]
         ReferenceUnsafe::RcRefCell(rc) => unsafe { Reference::from_ptr(rc.as_ptr()) },
